@@ -64,7 +64,7 @@ def cache_model(ctx, rules, maxlen, sim_len, sim_num, workers):
     hists = [v[1] for v in X.prints(r.out) if v[0] == "H"]
     if not hists:
         raise Machinery("AreaCache emitted no history")
-    for mech, inv in (("compute_writes_slots", "JacobianIsDefault"), ("slots_not_initialised", "NeverRaises"), ("chunk_unsafe", "NeverRaises")):
+    for mech, inv in (("compute_writes_slots", "JacobianIsDefault"), ("slots_not_initialised", "NeverRaises"), ("chunk_unsafe", "NeverRaises"), ("returns_cached_arrays", "ComputeIsRequested")):
         rr = ctx.tlc("AreaCache", _cache_cfg(rules, 3, mech, [inv]), what="defect mechanism %s must violate %s" % (mech, inv), workers=2, count=False, timeout=600)
         if rr.violated != inv:
             raise Machinery("AreaCache with mechanism %s: expected %s to be violated, got %r\n%s" % (mech, inv, rr.violated, rr.out[-1500:]))
@@ -88,6 +88,8 @@ def _act_json(a):
         return ["compute", a[1][0], bool(a[1][1])]
     if a[0] == "total":
         return ["total", a[1]]
+    if a[0] == "edit":
+        return ["edit", a[1]]
     return [a[0]]
 
 
